@@ -46,9 +46,12 @@ func main() {
 		}
 		pkgs = append(pkgs, pkgInfo{Name: pkg, AutoInstr: opts.AutoInstr})
 		fmt.Fprintf(&reg, "\t%s \"cffverif/corpus/%s\"\n", pkg, pkg)
+		var auxSrc strings.Builder
+		auxSrc.WriteString(progen.AuxHeader())
 		emit := func(p *progen.Prog) {
-			src := progen.Source(p)
-			if err := os.WriteFile(filepath.Join(dir, fmt.Sprintf("prog_%d.go", p.ID)), []byte(src), 0o644); err != nil {
+			src, aux := progen.Source(p)
+			auxSrc.WriteString(aux)
+			if err := os.WriteFile(filepath.Join(dir, fmt.Sprintf("prog_%d_x.go", p.ID)), []byte(src), 0o644); err != nil {
 				panic(err)
 			}
 			b, _ := json.Marshal(p)
@@ -73,6 +76,12 @@ func main() {
 				emit(p)
 			}
 		}
+		if err := os.MkdirAll(filepath.Join(dir, "ext"), 0o755); err != nil {
+			panic(err)
+		}
+		if err := os.WriteFile(filepath.Join(dir, "ext", "aux.go"), []byte(auxSrc.String()), 0o644); err != nil {
+			panic(err)
+		}
 	}
 	// special package: Slice without index parameter + SliceEnd
 	{
@@ -87,8 +96,8 @@ func main() {
 			p := &progen.Prog{ID: id, Pkg: pkg, Name: fmt.Sprintf("Prog%d", id), Special: "noindex-sliceend"}
 			id++
 			p.Par = progen.GenPar(rng, progen.GenOpts{NoIndexEnd: true})
-			src := progen.Source(p)
-			if err := os.WriteFile(filepath.Join(dir, fmt.Sprintf("prog_%d.go", p.ID)), []byte(src), 0o644); err != nil {
+			src, _ := progen.Source(p)
+			if err := os.WriteFile(filepath.Join(dir, fmt.Sprintf("prog_%d_x.go", p.ID)), []byte(src), 0o644); err != nil {
 				panic(err)
 			}
 			b, _ := json.Marshal(p)
